@@ -163,7 +163,11 @@ func trustedResourceURLFormat(format string, args map[string]string) (TrustedRes
 		// placeholders that cannot be part of a dot-segment.
 		masked := trustedResourceURLFormatMarkerPattern.ReplaceAllStringFunc(format, func(match string) string {
 			argName := match[len("%{") : len(match)-len("}")]
-			return strings.Repeat("x", len(safehtmlutil.QueryEscapeURL(args[argName])))
+			if n := len(safehtmlutil.QueryEscapeURL(args[argName])); n > 0 {
+				return strings.Repeat("x", n)
+			}
+			// An empty argument must not join the dots on either side of its marker.
+			return "x"
 		})
 		if countDoubleDotSegments(ret) != countDoubleDotSegments(masked) {
 			err = fmt.Errorf(`arguments must not form a ".." path segment in %q`, ret)
